@@ -78,8 +78,21 @@ func recoverErr(f func() error) (err error) {
 	return f()
 }
 
+// scale is the size knob of the current file: 1 = small (every cut is
+// enumerated), larger = a file that crosses buffer boundaries of the readers
+// (4 KiB bufio, 64 KiB scanner tokens, 4096-record blocks), whose cuts are
+// enumerated around those boundaries and sampled elsewhere.
+var scale = 1
+
 // genFile draws one valid file.
 func genFile(c choice.Chooser) (*file, error) {
+	scale = 1
+	switch c.Intn("file:size", 40) {
+	case 37, 38:
+		scale = 30
+	case 39:
+		scale = 700
+	}
 	format := c.Intn("file:format", FKinds)
 	switch format {
 	case FPlyASCII, FPlyLE, FPlyBE:
@@ -154,13 +167,13 @@ func genPlyForeign(c choice.Chooser) (*file, error) {
 	for i := c.Intn("fply:extras", 3); i > 0; i-- {
 		props = append(props, plyProp{fmt.Sprintf("q%d", i), []string{"float", "double", "int", "uchar"}[c.Intn("fply:extratype", 4)]})
 	}
-	nv := 1 + c.Intn("fply:verts", 8)
+	nv := 1 + c.Intn("fply:verts", 8*minI(scale, 30))
 	faces := choice.Bool(c, "fply:faces")
 	nf := 0
 	countType, indexType, listName := "uchar", "int", "vertex_indices"
 	uv := false
 	if faces {
-		nf = 1 + c.Intn("fply:nfaces", 5)
+		nf = 1 + c.Intn("fply:nfaces", 5*minI(scale, 30))
 		countType = []string{"uchar", "uint", "int"}[c.Intn("fply:counttype", 3)]
 		indexType = []string{"int", "uint"}[c.Intn("fply:indextype", 2)]
 		listName = []string{"vertex_indices", "vertex_index"}[c.Intn("fply:listname", 2)]
@@ -258,8 +271,8 @@ func genPly(c choice.Chooser, format int) (*file, error) {
 	tri := choice.Bool(c, "ply:faces")
 	spec := gen.MeshSpec{
 		Topo:      modeling.PointTopology,
-		MaxVerts:  12,
-		MaxPrims:  6,
+		MaxVerts:  12 * minI(scale, 30),
+		MaxPrims:  6 * minI(scale, 30),
 		V3:        []string{modeling.PositionAttribute},
 		UnitNames: map[string]bool{modeling.ColorAttribute: true},
 	}
@@ -338,7 +351,7 @@ func genPly(c choice.Chooser, format int) (*file, error) {
 }
 
 func genSTL(c choice.Chooser) (*file, error) {
-	spec := gen.MeshSpec{Topo: modeling.TriangleTopology, MaxVerts: 9, MaxPrims: 6, V3: []string{modeling.PositionAttribute}}
+	spec := gen.MeshSpec{Topo: modeling.TriangleTopology, MaxVerts: 9, MaxPrims: 6 * scale, V3: []string{modeling.PositionAttribute}}
 	desc := "stl"
 	if choice.Bool(c, "stl:normals") {
 		spec.V3 = append(spec.V3, modeling.NormalAttribute)
@@ -358,7 +371,7 @@ func genSTL(c choice.Chooser) (*file, error) {
 }
 
 func genSplat(c choice.Chooser) (*file, error) {
-	spec := gen.MeshSpec{Topo: modeling.PointTopology, MaxVerts: 6,
+	spec := gen.MeshSpec{Topo: modeling.PointTopology, MaxVerts: 6 * minI(scale, 60),
 		V1: []string{modeling.OpacityAttribute},
 		V3: []string{modeling.PositionAttribute, modeling.ScaleAttribute, modeling.FDCAttribute},
 		V4: []string{modeling.RotationAttribute}, UnitNames: map[string]bool{modeling.RotationAttribute: true}}
@@ -395,7 +408,7 @@ func floatToHalf(f float32) uint16 {
 func genSPZ(c choice.Chooser) (*file, error) {
 	version := 2 - c.Intn("spz:v1", 2) // 2 first
 	shDegree := c.Intn("spz:sh", 4)
-	n := 1 + c.Intn("spz:n", 5)
+	n := 1 + c.Intn("spz:n", 5*minI(scale, 60))
 	fracBits := 6 + c.Intn("spz:frac", 7)
 	shDim := []int{0, 3, 8, 15}[shDegree]
 	var raw bytes.Buffer
@@ -437,7 +450,7 @@ func genSPZ(c choice.Chooser) (*file, error) {
 
 func genPTS(c choice.Chooser) (*file, error) {
 	cols := []int{3, 4, 7}[c.Intn("pts:cols", 3)]
-	n := 1 + c.Intn("pts:n", 8)
+	n := 1 + c.Intn("pts:n", 8*minI(scale, 30))
 	crlf := choice.OneIn(c, "pts:crlf", 5)
 	nl := "\n"
 	if crlf {
@@ -472,11 +485,52 @@ func genPTS(c choice.Chooser) (*file, error) {
 // cutPoints enumerates the crash points of a file: every byte offset
 // 0..len-1 for binary data and ASCII headers, every token boundary for ASCII
 // bodies.
+func minI(a, b int) int {
+	if a < b {
+		return a
+	}
+	return b
+}
+
+// LargeLimit: files longer than this are not cut at every position.
+const LargeLimit = 6000
+
+// interesting reports whether cut p of a large file is enumerated: near the
+// start and the end, around multiples of the readers' buffer sizes (absolute
+// and relative to the end of the header) and around region boundaries.
+func (f *file) interesting(p int) bool {
+	n := len(f.Bytes)
+	if p < 400 || p > n-400 {
+		return true
+	}
+	body := f.headerLen
+	if len(f.regions) > 0 {
+		body = f.regions[0].end
+	}
+	for _, r := range f.regions {
+		if d := p - r.end; d > -48 && d < 48 {
+			return true
+		}
+	}
+	for _, base := range []int{0, body, 84} {
+		for _, m := range []int{4096, 65536, 50 * 4096, 32 * 4096} {
+			if d := (p - base) % m; p >= base && (d < 40 || d > m-40) {
+				return true
+			}
+		}
+	}
+	return false
+}
+
 func (f *file) cutPoints() []int {
 	b := f.Bytes
 	var cuts []int
 	isSpace := func(x byte) bool { return x == ' ' || x == '\n' || x == '\r' || x == '\t' }
+	large := len(b) > LargeLimit
 	for p := 0; p < len(b); p++ {
+		if large && !f.interesting(p) && p%97 != 13 {
+			continue
+		}
 		if !f.ascii || p < f.headerLen || p == 0 {
 			cuts = append(cuts, p)
 			continue
